@@ -82,12 +82,28 @@ var vsdUnusual = []string{
 const vsdSDPText = "v=0\r\no=- 4596489990601351948 2 IN IP4 127.0.0.1\r\ns=-\r\nt=0 0\r\na=group:BUNDLE 0\r\n" +
 	"m=application 9 UDP/DTLS/SCTP webrtc-datachannel\r\nc=IN IP4 0.0.0.0\r\na=mid:0\r\na=sctp-port:5000\r\n"
 
+// runes the seeded unusual strings are drawn from: controls, JSON and HTML metacharacters, combining
+// marks, line/paragraph separators, BOM, replacement character, astral-plane characters (all valid UTF-8)
+var vsdRunes = []rune{
+	0, 1, 7, 8, 9, 10, 12, 13, 27, 31, 32, '"', '\\', '/', '<', '>', '&', '\'', '`', '%', '{', '}', '[', ']', ':', ',',
+	'a', 'Z', '0', 0x7f, 0x80, 0xa0, 0xe9, 0x301, 0x200b, 0x2028, 0x2029, 0xfeff, 0xfffd, 0xffff, 0x4e16, 0x1f642,
+	0x10ffff,
+}
+
 func vsdPick(r *mrand.Rand, rep int) string {
 	if rep == 0 {
 		return vsdUnusual[0]
 	}
+	if r.Intn(2) == 0 {
+		return vsdUnusual[r.Intn(len(vsdUnusual))]
+	}
+	n := 1 + r.Intn(24)
+	out := make([]rune, n)
+	for i := range out {
+		out[i] = vsdRunes[r.Intn(len(vsdRunes))]
+	}
 
-	return vsdUnusual[r.Intn(len(vsdUnusual))]
+	return string(out)
 }
 
 func vsdStr(class, typ string, r *mrand.Rand, rep int) string {
@@ -643,10 +659,10 @@ func vsdRun(t *testing.T, tr *vkTrace, c vsdCase) {
 			serial, _ := rand.Int(rand.Reader, new(big.Int).Lsh(big.NewInt(1), 100))
 			cert, err = NewCertificate(key, x509.Certificate{
 				SerialNumber: serial, Version: 2,
-				Subject:      pkix.Name{CommonName: vsdPick(r, c.Rep), Organization: []string{"verif"}},
-				Issuer:       pkix.Name{CommonName: "issuer"},
-				NotBefore:    time.Now().Add(-time.Duration(1+c.Rep) * time.Hour),
-				NotAfter:     time.Date(2090+c.Rep%9, 12, 31, 23, 59, 59, 0, time.UTC),
+				Subject:   pkix.Name{CommonName: vsdPick(r, c.Rep), Organization: []string{"verif"}},
+				Issuer:    pkix.Name{CommonName: "issuer"},
+				NotBefore: time.Now().Add(-time.Duration(1+c.Rep) * time.Hour),
+				NotAfter:  time.Date(2090+c.Rep%9, 12, 31, 23, 59, 59, 0, time.UTC),
 			})
 		}
 		if err != nil {
